@@ -446,6 +446,75 @@ class View:
         self._origin_memo[key] = res
         return res
 
+    # ------------------------------------------------------ alternatives of a value
+    UNWRAPS = ("std::option::Option::unwrap", "std::option::Option::expect", "std::result::Result::unwrap", "std::result::Result::expect",
+               "std::option::Option::unwrap_unchecked")
+
+    def alts(self, t, depth=0, seen=frozenset()):
+        """Set of terms a value may come from: locals with several definitions are expanded into their
+        definitions, and a projection out of a constructor is cancelled against it (`(Some(x) as Some).0` = x;
+        the alternatives built with another variant are infeasible for that projection and dropped).  This is what
+        makes rules independent of temporaries, of `match` arms building an Option/Result that is taken apart again
+        right after, and of inlined helpers."""
+        if depth > 14 or not isinstance(t, tuple) or not t:
+            return {t}
+        k = t[0]
+        if k == "multi":
+            l = t[1]
+            if l in seen or l in self.opaque:
+                return {t}
+            out = set()
+            for d in self.whole_defs(l):
+                if d[0] == "stmt":
+                    out |= self.alts(self.origin_rv(d[3]["rv"], d[1]), depth + 1, seen | {l})
+                elif d[0] == "call":
+                    out |= self.alts(self.origin_call(d[1]), depth + 1, seen | {l})
+                elif d[0] == "param":
+                    out.add(("param", l))
+                else:
+                    out.add(("unknown", "def"))
+            return out
+        if k == "field":
+            out = set()
+            for b in self.alts(t[1], depth + 1, seen):
+                if b[0] == "agg" and b[1] == "adt" and t[2] is not None:
+                    if b[4] != t[2]:
+                        continue
+                    fields = b[5]
+                    if t[3] in fields and fields.index(t[3]) < len(b[2]):
+                        out |= self.alts(b[2][fields.index(t[3])], depth + 1, seen)
+                        continue
+                if b[0] == "agg" and b[1] == "tuple" and t[2] is None and str(t[3]).isdigit() and int(t[3]) < len(b[2]):
+                    out |= self.alts(b[2][int(t[3])], depth + 1, seen)
+                    continue
+                # `x?`: (Try::branch(x) as Continue).0 is x's Ok / Some payload; ((.. as Break).0 as Err).0 is x's Err payload
+                if b[0] == "call" and b[2] and "std::ops::Try>::branch" in b[2] and b[3] and t[2] == "Continue":
+                    okv = "Ok" if b[2].startswith("<std::result::Result") else "Some" if b[2].startswith("<std::option::Option") else None
+                    if okv:
+                        out |= self.alts(("field", b[3][0], okv, "0"), depth + 1, seen)
+                        continue
+                if t[2] == "Err" and b[0] == "field" and b[2] == "Break" and isinstance(b[1], tuple) and b[1][0] == "call" and b[1][2] and \
+                        "std::ops::Try>::branch" in b[1][2] and b[1][2].startswith("<std::result::Result") and b[1][3]:
+                    out |= self.alts(("field", b[1][3][0], "Err", "0"), depth + 1, seen)
+                    continue
+                out.add(("field", b, t[2], t[3]))
+            return out
+        if k in ("ref", "deref") and len(t) == 2:
+            return set((k, x) if k == "ref" or x[0] != "ref" else x[1] for x in self.alts(t[1], depth + 1, seen))
+        if k == "call" and t[2] is not None and t[3]:
+            base = erase_generics(t[2])
+            if base in self.UNWRAPS:
+                out = set()
+                for a in self.alts(t[3][0], depth + 1, seen):
+                    if a[0] == "agg" and a[1] == "adt" and a[4] in ("Some", "Ok") and a[2]:
+                        out |= self.alts(a[2][0], depth + 1, seen)
+                    elif a[0] == "agg" and a[1] == "adt" and a[4] in ("None", "Err"):
+                        continue   # the panicking alternative is C12's business
+                    else:
+                        out.add(("call", t[1], t[2], (a,) + tuple(t[3][1:])))
+                return out
+        return {t}
+
     def set_opaque(self, locals_):
         self.opaque = set(locals_)
         self._origin_memo = {}
